@@ -20,6 +20,40 @@ CHECKS = {
              "against the same specification; long random histories are validated the same way.",
         note=TRUST + "Exhaustive only inside the stated menus/bounds; W=64 only; lengths < 2^31.",
         design_ref="5/C06"),
+    "C13": dict(
+        technique="TLA+ spec Atomic.tla (one action per atomic instruction): TLC explores every interleaving incl. CAS "
+                  "retries of 2-4 writers (invariants NoInterference, SwapLinearizable, EqualsSequential; Termination "
+                  "under fairness); every complete schedule is exported and replayed step by step on real threads "
+                  "through the sux_verif yield hooks; random/PCT schedules are trace-validated against the spec",
+        text="Exhaustive exploration by TLC of all interleavings of the atomic loads / compare-exchanges / fetch-or/and "
+             "of 2-4 concurrent writers on fields that share a word, straddle two words or sit in adjacent words "
+             "(W=64 and the real u8 instantiation, all widths incl. full width, three memory patterns, EF builder jobs "
+             "with all index partitions), with lock-freedom checked as a liveness property; conformance in both "
+             "directions: every TLC schedule is replayed on the real AtomicBitFieldVec/AtomicBitVec with a deterministic "
+             "scheduler parked on the hooks and every step's memory effect is judged by TLC (Trace_Atomic), and random "
+             "/ PCT / burst schedules over 4-8 threads and hundreds of fields, incl. the real "
+             "EliasFanoConcurrentBuilder::set compared with the sequential builder, are validated as behaviours of the "
+             "spec. The rayon-parallel (unscheduled) concurrent Elias-Fano build is compared with the sequential one "
+             "by the ef family under the same property.",
+        note=TRUST + "Memory is modelled sequentially consistent per word (each step is one atomic operation on one "
+             "location, so this is sound for distinct-element writers; reordering across different words is outside "
+             "the model). Step-by-step conformance is tied to the pinned instruction order. Needs hooks (--cfg sux_verif).",
+        design_ref="5/C13"),
+    "C18": dict(
+        technique="TLA+ spec SigStore.tla (contract + design transcription of push/bucket counting, size aggregation and "
+                  "the equal/aggregate/split iterator branches, online and file-backed with chunked reads): exhaustive "
+                  "TLC over all small stores, TLC-exported scripts replayed on SigStore/ShardStore, TLC trace validation",
+        text="TLC enumerates every multiset of up to 2-4 pushes with 3-bit tops x bucket bits 0..2 x max shard bits 0..3 "
+             "x every requested shard bits (incl. max+1: panic) x online/offline x two borrowed passes then the "
+             "consuming pass, with iterators dropped at any point, and checks in every state that the design returns "
+             "exactly the pushed multiset, every pair in the shard of its top bits, 2^s shards, shard_sizes = actual "
+             "sizes, no out-of-bounds access; all those histories are exported and executed on the real stores "
+             "([u64;1]/[u64;2], u8/u64/EmptyVal values) and each recorded call is judged by TLC; generated stores of "
+             "0..5000 pairs with skewed distributions and every (bucket,max,requested) triple from {0,1,2,4,8,9} cross "
+             "the 1024-record read buffer of the file-backed store.",
+        note=TRUST + "Agreement of repeated iterations is checked as equal multisets per shard (order inside a shard is "
+             "not part of the property). The spec computes every shard number itself from the logged signature limbs.",
+        design_ref="5/C18"),
 }
 
 PENDING = "check under construction in this session (specification not yet bound to the code)"
@@ -50,7 +84,7 @@ def main():
             "guard": "sux_verif",
             "enable": "RUSTFLAGS --cfg sux_verif (set in harness/.cargo/config.toml; the harness has a path dependency on /repo)",
             "baseline_off_cmd": "cd /repo && cargo test --workspace --no-fail-fast --offline",
-            "source_commits": [],
+            "source_commits": ["3928906"],
             "add_only": True,
         },
         "engines": [{"name": "tlc", "path": "spec/", "serves_properties": [c["property_id"] for c in checks],
